@@ -360,7 +360,7 @@ STRS = ["a", "é", "日本語 text", " pad ", "true", "null", "1", "1e3", "2020-
 BAD_STRS = ["", "  "]
 DURS = ["PT0S", "PT1H", "P1DT12H", "-PT1H", "PT0.000001S", "P10000D", "P1W", "PT1.5S"]
 UNITS = ["meter", "1/second", "dimensionless", "kg*m/s**2", "m", "percent", "degC", "µm"]
-QUANTS = ["5 meter", "0 meter", "-2.5e-3 kg*m/s**2", "5", "1e300 m", "0.1 m", "1e22 m", "3 km/h"]
+QUANTS = ["5 meter", "0 meter", "-2.5e-3 kg*m/s**2", "5", "1e300 m", "0.1 m", "1e22 m", "3 km/h", "meter", "degC"]
 MIMES = ["text/plain", "application/json;charset=utf-8", "a/b"]
 HASHES = ["0", "abcDEF0123", "ff" * 32]
 QHASHES = ["sha256:ab12", "sha512:0", "sha256:" + "0f" * 32]
@@ -713,6 +713,7 @@ def yaml_dump(obj) -> str:
 
 def short(x, n=200) -> str:
     s = x if isinstance(x, str) else repr(x)
+    s = s.replace("\n", " | ")
     return s if len(s) <= n else s[: n - 3] + "..."
 
 
